@@ -837,9 +837,12 @@ pub fn two_member_sweep(vmax: u64, want: &[&str], deadline: Instant) -> Part {
 /// both orders, each delta being one of five kinds.
 pub fn multi_member(want: &[&str]) -> Part {
     let mut part = Part::new("pair/multi-member-message");
-    part.rule = "a receiver holding copies (gc 1, mv 2) of two members gets one crafted message with one delta per member; each delta is one of {resetting, header-only resetting, incremental, inapplicable, from the future, header-only}; both orders; ACK and SYN-ACK framing; also three members; oracle: the catch-up callback is invoked exactly once iff some copy's watermark rose".into();
+    part.rule = "a receiver holding copies (gc 1, mv 2) of two members gets one crafted message with one delta per member; each delta is one of {resetting, header-only resetting, incremental, inapplicable, from the future, header-only, about a member the receiver has no copy of}; both orders; ACK and SYN-ACK framing; also three members; oracle: the catch-up callback is invoked exactly once iff some copy's watermark rose".into();
     let ids: Vec<Id> = vec![Id::v4("x", 1, 21_000), Id::v4("y", 1, 21_001), Id::v4("z", 1, 21_002)];
-    let kinds = ["reset", "reset-header-only", "incremental", "inapplicable", "future", "header-only"];
+    // ("unknown": the delta is about a member the receiver has no copy of — in an ACK nothing makes
+    // it known first —, which the receiver skips)
+    let unknown = Id::v4("never-heard-of", 1, 21_009);
+    let kinds = ["reset", "reset-header-only", "incremental", "inapplicable", "future", "header-only", "unknown"];
     let delta_of = |id: &Id, kind: &str| -> Vec<Op> {
         match kind {
             "reset" => vec![Op::Node { id: id.clone(), gc: 5, from: 0 }, Op::Kv { key: "k2".into(), value: "v".into(), version: 6, status: 0 }],
@@ -847,6 +850,7 @@ pub fn multi_member(want: &[&str]) -> Part {
             "incremental" => vec![Op::Node { id: id.clone(), gc: 1, from: 2 }, Op::Kv { key: "k2".into(), value: "v".into(), version: 3, status: 0 }],
             "inapplicable" => vec![Op::Node { id: id.clone(), gc: 5, from: 2 }, Op::Kv { key: "k2".into(), value: "v".into(), version: 6, status: 0 }],
             "future" => vec![Op::Node { id: id.clone(), gc: 1, from: 4 }, Op::Kv { key: "k2".into(), value: "v".into(), version: 5, status: 0 }],
+            "unknown" => vec![Op::Node { id: Id { node_id: format!("{}-{}", unknown.node_id, id.node_id), ..unknown.clone() }, gc: 5, from: 0 }, Op::Kv { key: "k2".into(), value: "v".into(), version: 6, status: 0 }],
             _ => vec![Op::Node { id: id.clone(), gc: 1, from: 2 }],
         }
     };
